@@ -159,6 +159,33 @@ fn sched_of(req: &Value, len: usize) -> (Vec<Sched>, usize) {
     }
 }
 
+/// size() then encode() of x through a `TracedW` around the real protocol writing into a BytesMut
+fn trace_enc<T: Message>(x: &T, proto: &str) -> Value {
+    use vh::traced::TracedW;
+    macro_rules! go {
+        ($mk:expr) => {{
+            let mut tw = TracedW::new($mk);
+            let n = x.size(&mut tw);
+            let r = x.encode(&mut tw);
+            json!({"events": tw.log, "size": n, "err": r.err().map(|e| format!("{e}")).unwrap_or_default(), "unmodelled": tw.unmodelled})
+        }};
+    }
+    match proto {
+        "bin" => {
+            let mut b = BytesMut::new();
+            go!(binary::TBinaryProtocol::new(&mut b, false))
+        }
+        "binle" => {
+            let mut b = BytesMut::new();
+            go!(binary_le::TBinaryProtocol::new(&mut b, false))
+        }
+        _ => {
+            let mut b = BytesMut::new();
+            go!(compact::TCompactOutputProtocol::new(&mut b, false))
+        }
+    }
+}
+
 /// op "roundtrip": decode `input` -> x; size(x); out = encode(x); decode(out) == x.
 /// op "decode": outcome only (used for hostile input).
 pub fn exec<T: Message + PartialEq + std::fmt::Debug>(req: &Value) -> Value {
@@ -183,6 +210,14 @@ pub fn exec<T: Message + PartialEq + std::fmt::Debug>(req: &Value) -> Value {
         };
         if op == "decode" {
             return json!({"ok": true, "used": used});
+        }
+        if op == "trace_encode" {
+            // the call sequence of the EMITTED size() and encode() on a real protocol object, one event per call
+            let mut traces = serde_json::Map::new();
+            for tp in ["bin", "binle", "compact"] {
+                traces.insert(tp.to_string(), json!(trace_enc(&x, tp)));
+            }
+            return json!({"ok": true, "used": used, "traces": traces});
         }
         let out_proto = req["out_proto"].as_str().unwrap_or(&proto).to_string();
         let (out, size, guard_ok) = match enc(&x, &out_proto) {
